@@ -2,8 +2,8 @@
     Property theorems only; each is closed by a lemma proved in Lib/Path.v,
     Caco/NamesProofs.v, Caco/FileSetProofs.v or Caco/NamesGen.v.  All
     statements quantify over arbitrary byte strings. *)
-From Coq Require Import List NArith Bool String.
-From Verif Require Import Lib.Path Lib.Utf8 Caco.Names Caco.NamesProofs Caco.Match Caco.MatchProofs Caco.FileSet Caco.FileSetProofs
+From Coq Require Import List NArith Bool String Permutation.
+From Verif Require Import Lib.Path Lib.Utf8 Caco.Names Caco.NamesProofs Caco.Match Caco.MatchProofs Caco.FileSet Caco.FileSetProofs Caco.FileSetIgnore
   Caco.NamesGenDefs Caco.NamesGen Gen.CacoConsts.
 Import ListNotations.
 Local Open Scope N_scope.
@@ -157,6 +157,60 @@ Theorem C12_dir_ignore_is_segmentwise : forall p i x,
    exists rest, rest <> [] /\ rel_segs x = (rsegs p ++ rsegs i) ++ rest).
 Proof. exact dir_ignore_is_segmentwise. Qed.
 Print Assumptions C12_dir_ignore_is_segmentwise.
+
+(** Ignore entries are independent of one another (Caco/FileSetIgnore.v): a
+    name is ignored exactly when one entry, taken ALONE, ignores it ... *)
+Theorem C12_ignored_entrywise : forall p r name,
+  ignored p r name = existsb (fun i => ignored p (only_ignore r i) name) (r_ignore r).
+Proof. exact ignored_entrywise. Qed.
+Print Assumptions C12_ignored_entrywise.
+
+(** ... so a directory ignore covers every name beneath its directory
+    whatever other entries the rule has (a directory whose name sorts between
+    it and the files beneath it - gen.old/ next to gen/, a-b/ next to a/ -, a
+    directory nested in it, the root) and wherever it stands among them; *)
+Theorem C12_dir_ignore_independent_of_other_ignores : forall p r i name,
+  In i (r_ignore r) -> ends_with_slash i = true ->
+  beneath name (make_rel_path p i) = true ->
+  ignored p r name = true.
+Proof. exact dir_ignore_independent_of_other_ignores. Qed.
+Print Assumptions C12_dir_ignore_independent_of_other_ignores.
+
+(** further entries never take a name out again, a name that no entry alone
+    ignores is not ignored, and the order of the entries does not matter. *)
+Theorem C12_ignored_monotone : forall p r r' name,
+  incl (r_ignore r) (r_ignore r') -> ignored p r name = true -> ignored p r' name = true.
+Proof. exact ignored_monotone. Qed.
+Print Assumptions C12_ignored_monotone.
+
+Theorem C12_not_ignored_iff : forall p r name,
+  ignored p r name = false <->
+  forall i, In i (r_ignore r) -> ignored p (only_ignore r i) name = false.
+Proof. exact not_ignored_iff. Qed.
+Print Assumptions C12_not_ignored_iff.
+
+Theorem C12_ignored_order_irrelevant : forall p r r' name,
+  Permutation (r_ignore r) (r_ignore r') -> ignored p r name = ignored p r' name.
+Proof. exact ignored_order_irrelevant. Qed.
+Print Assumptions C12_ignored_order_irrelevant.
+
+(** A lookup that sorts the ignored directories and tests only the
+    predecessor of the name loses gen/a.go under [gen/; gen.old/], a/x under
+    [a/; a-b/] and under the nested [a/; a/m/]. *)
+Theorem C12_bsearch_dir_ignore_refuted :
+  ignored_dirs_bsearch [] (ig_rule [bs "gen/"; bs "gen.old/"]) (bs "gen/a.go") = false /\
+  ignored [] (ig_rule [bs "gen/"; bs "gen.old/"]) (bs "gen/a.go") = true /\
+  ignored_dirs_bsearch [] (ig_rule [bs "gen/"]) (bs "gen/a.go") = true /\
+  ignored_dirs_bsearch [] (ig_rule [bs "a-b/"; bs "a/"]) (bs "a/x") = false /\
+  ignored [] (ig_rule [bs "a-b/"; bs "a/"]) (bs "a/x") = true /\
+  ignored_dirs_bsearch [] (ig_rule [bs "a/"; bs "a/m/"]) (bs "a/x") = false /\
+  ignored_dirs_bsearch [] (ig_rule [bs "a/"; bs "a/m/"]) (bs "a/b") = true /\
+  ignored [] (ig_rule [bs "a/"; bs "a/m/"]) (bs "a/x") = true /\
+  ignored (bs "pkg") (ig_rule [bs "gen.old/"; bs "gen/"]) (bs "pkg/gen/a.go") = true /\
+  ignored (bs "pkg") (ig_rule [bs "gen.old/"; bs "gen/"]) (bs "pkg/gen.old/a.go") = true /\
+  ignored (bs "pkg") (ig_rule [bs "gen.old/"; bs "gen/"]) (bs "pkg/generic/a.go") = false.
+Proof. exact bsearch_dir_ignore_refuted. Qed.
+Print Assumptions C12_bsearch_dir_ignore_refuted.
 
 (** ** Patterns: Go's path.Match in full *)
 
